@@ -17,7 +17,7 @@ import weakref
 
 from . import tm
 from .checks_tm import AGG_TOOLS, ITER_TOOLS, TIERS, case_kind, generate, nontrivial, result_projection
-from .driver import Accounting, Suspend, Task
+from .driver import Accounting, Suspend, Task, drain_asyncgens
 from .instruments import FLAVOURS_CALL, Cancelled, Item, Recorder, make_source
 from .report import SubVerdict, Verdict
 from .tlc import MachineryError
@@ -393,7 +393,7 @@ def check_c17(prop, tier, seed):
     L_ = tm.load_lib()
     for name, mk in (("list", lambda: L_.list(big)), ("sum", lambda: L_.sum(big)), ("map", lambda: L_.list(L_.map(abs, big))),
                      ("zip", lambda: L_.list(L_.zip(big, big))), ("filter", lambda: L_.list(L_.filter(None, big))),
-                     ("islice", lambda: L_.list(L_.islice(big, 5000, None))), ("sorted", lambda: L_.sorted(big)),
+                     ("islice", lambda: L_.list(L_.islice(big, 5000, None))), ("sorted", lambda: L_.sorted(list(range(70000)))),
                      ("chain", lambda: L_.list(L_.chain(big, big))), ("reduce", lambda: L_.reduce(max, big)),
                      ("tee", lambda: L_.list(L_.tee(big, n=1)[0])), ("enumerate", lambda: L_.list(L_.enumerate(big))),
                      ("any_iter", lambda: L_.list(L_.any_iter(big)))):
@@ -454,7 +454,7 @@ def c18_case(case):
     L = tm.load_lib()
     out, runs = [], 0
     tool = case["cfg"]["tool"]
-    for src in ("cls", "agen"):
+    for src in ("cls", "agen", "clstruthy"):
         fl = {"src": src, "call": "asyncdef"}
         base = tm.execute(case, L, flav=fl, susp=1)
         n = base.nsusp
@@ -686,9 +686,9 @@ STREAM_TOOLS = {
     "zip": ({"strict": False}, 0), "map": ({"z": 0}, 0), "filter": ({"pred": True}, 0), "filterfalse": ({"pred": True}, 0),
     "enumerate": ({"start": 0}, 0), "accumulate": ({"init": False, "fn": "func"}, 0), "batched": ({"n": 4, "strict": False}, 4),
     "chain": ({"outer": False}, 0), "compress": ({"z": 0}, 0), "dropwhile": ({"z": 0}, 0), "takewhile": ({"z": 0}, 0),
-    "islice": ({"start": 2, "stop": -1, "step": 3}, 0), "pairwise": ({"z": 0}, 0), "starmap": ({"z": 0}, 0), "zip_longest": ({"fill": "fresh"}, 0),
+    "islice": ({"start": 25, "stop": -1, "step": 3}, 0), "pairwise": ({"z": 0}, 0), "starmap": ({"z": 0}, 0), "zip_longest": ({"fill": "fresh"}, 0),
     "merge": ({"key": True, "rev": False}, 0),
-    "all": ({"z": 0}, 0), "any": ({"z": 0}, 0), "sum": ({"startv": "zero"}, 0), "min": ({"key": True, "dflt": "no"}, 0), "max": ({"key": False, "dflt": "no"}, 0),
+    "all": ({"z": 0}, 0), "any": ({"z": 0}, 0), "sum": ({"startv": "zero"}, 0), "min": ({"key": True, "kf": "key", "dflt": "no"}, 0), "max": ({"key": False, "kf": "key", "dflt": "no"}, 0),
     "reduce": ({"init": True}, 0), "nlargest": ({"key": True, "n": 5}, 5), "nsmallest": ({"key": False, "n": 5}, 5),
 }
 BIG_N = 1000   # nlargest/nsmallest with a large n on a stream twice as long: the window is n, not the stream
@@ -742,8 +742,11 @@ def c20_run(args):
     varied = tool in ("merge", "min", "max", "nlargest", "nsmallest")
     refs, census, passed = [], [], [0]
     is_agg = tool in tm.AGGREGATIONS
+    acct = Accounting()
 
     def do_census():
+        gc.collect()
+        drain_asyncgens(acct)
         gc.collect()
         census.append({"passed": passed[0], "alive": sum(1 for r in refs if r() is not None)})
 
@@ -764,7 +767,6 @@ def c20_run(args):
     fns = {"func": lambda *a: None, "key": lambda x: x.k, "pred": lambda x: x.k != 0}
     rec = Recorder()
     thunk = tm.build_call(L, tool, par, S, lambda name: fns[name], rec)
-    acct = Accounting()
     if is_agg:
         Task(thunk(), acct).run()
         do_census()
@@ -819,6 +821,49 @@ def groupby_retention(args):
     return {"cfg": {"tool": "groupby", "param": 1, "nsrc": 1, "n": n}, "ev": census}
 
 
+def from_iterable_retention(n):
+    """chain.from_iterable over a long stream of one-item iterators: the inner iterators are the
+    outer source's items -- a finished one must not stay alive."""
+    L = tm.load_lib()
+    refs, census = [], []
+
+    class Inner:
+        def __init__(self, x):
+            self.x, self.done = x, False
+
+        def __aiter__(self):
+            return self
+
+        async def __anext__(self):
+            if self.done:
+                raise StopAsyncIteration
+            self.done = True
+            return self.x
+
+        async def aclose(self):
+            self.done = True
+
+    def outer():
+        for p in range(n):
+            it = Inner(p)
+            refs.append(weakref.ref(it))
+            yield it
+
+    ch = L.chain.from_iterable(outer())
+    acct = Accounting()
+    k = 0
+    while True:
+        r = Task(ch.__anext__(), acct).run()
+        stop = r[0] != "done"
+        del r
+        if stop:
+            break
+        k += 1
+        gc.collect()
+        census.append({"passed": k, "alive": sum(1 for w in refs if w() is not None)})
+    return {"cfg": {"tool": "chain.from_iterable", "param": 0, "nsrc": 1, "n": n}, "ev": census}
+
+
 def check_c20(prop, tier, seed):
     v = Verdict(prop, tier, seed)
     sizes = [50] if tier == "quick" else [50, 200, 1000, 2000]
@@ -833,6 +878,7 @@ def check_c20(prop, tier, seed):
     with _pool() as pool:
         traces = pool.map(c20_run, jobs, chunksize=1)
         traces += pool.map(groupby_retention, [(n, kf) for n in sizes for kf in ("none", "def")], chunksize=1)
+        traces += pool.map(from_iterable_retention, sizes, chunksize=1)
     rejected, st = validate("RetentionObs", traces)
     for idx, matched in sorted(rejected.items()):
         tr = traces[idx]
